@@ -109,7 +109,11 @@ other("C01", "the transition tables of PandoraMachine (check and run phases) are
       "fires the trigger of its head with the whole configuration and its own key, a scale ends early only when the machine is "
       "back at 'begin', the machine is reset once after the steps (run transitions removed, state 'begin'), and the machine's own "
       "left then right disparity datasets are returned; the behaviour of the "
-      "transitions library itself (which trigger is legal in which state) and the execution of whole pipelines:")
+      "transitions library itself (which trigger is legal in which state) and the execution of whole pipelines:",
+      trusted=["glue mode: step operations, the transitions library (trigger / add_transitions / remove_transitions / set_state) and "
+               "every other callee are uninterpreted; a loop over an opaque iterable is summarised by ONE generic iteration -- the "
+               "number of iterations and any state carried from one iteration to the next are not modelled",
+               "update_conf(base, overlay) is assumed to take its key order from the base"])
 other("C02", "point_interval (the column ranges of the two images that a disparity puts in correspondence: in range, equal length, "
       "offset by the disparity, empty when the disparity exceeds the width) and popcount32b (Hamming weight of a 32-bit word, "
       "bit-vector proof) are proved for all inputs; for sad / ssd the two halves of the measure are proved separately: ad_cost / "
